@@ -308,7 +308,8 @@ def _gen_op(rng, kind, mt, rows, wild=True):
     if kind == "add_seqs":
         # rows of another alignment (new names, same length, a gap layout of their own) inserted before / after a
         # named row or appended
-        other = {f"x{i}": _rand_row(rng, n, mt, rng.choice([0.0, 0.25, 0.5])) for i in range(rng.randint(1, 2))}
+        fresh = [f"x{i}" for i in range(len(names) + 3) if f"x{i}" not in rows]
+        other = {nm: _rand_row(rng, n, mt, rng.choice([0.0, 0.25, 0.5])) for nm in fresh[: rng.randint(1, 2)]}
         where = rng.choice(["end", "before", "after"])
         return ["add_seqs", other, where, rng.choice(names)]
     if kind == "to_type:T":
@@ -492,6 +493,8 @@ def _spec_apply(mt, rows, op):
         raise ValueError(op[1])
     if k == "add_seqs":
         other, where, name = op[1], op[2], op[3]
+        if set(other) & set(rows):
+            raise ValueError("duplicate names")
         if where == "end":
             return mt, {**rows, **other}
         res = {}
